@@ -234,6 +234,16 @@ class C20(PropertyCheck):
                     knobs["base"] = "zero"       # section-relative offsets become large as well
                 img, ext = texcont.WRITERS[kind](texs, rng, **knobs)
                 cases.append(Case("%s ref %s %s" % (kind, hx(img), tex_tokens(texs)), kind + "-far"))
+        # the f32 payload-size request of ctpk.rs / bch.rs around the exactness boundary (payloads of 8..32 MiB built by
+        # the harness; formats 10 / 11, whose decoder ignores the data): does the reader ask for round_f32(bpp*w*h) bytes?
+        f32_sizes = [(10, 1001, 999), (10, 4096, 4096), (10, 4097, 4099), (11, 4097, 4099), (11, 2897, 2899)]
+        if thorough:
+            f32_sizes += [(11, 4096, 4096), (10, 4099, 4101), (11, 5793, 5795), (10, 8191, 4099), (11, 4099, 4097),
+                          (10, 5793, 5793), (11, 8191, 2049), (10, 65535, 257), (11, 257, 65535), (10, 4097, 4097)]
+            f32_sizes += [(rng.choice([10, 11]), rng.randrange(4000, 6000), rng.randrange(4000, 6000)) for _ in range(20)]
+        for (fmt, w, h) in f32_sizes:
+            for kind in ("ctpk", "bch"):
+                cases.append(Case("%s f32 %d %d %d" % (kind, fmt, w, h), "f32-size"))
         cases.append(Case("ctpk codec", "codec-table"))
         rng.shuffle(cases)          # spread the expensive prefix sweeps over the shards
         return cases
@@ -246,6 +256,16 @@ class C20(PropertyCheck):
             return "%s %s: %s" % (kind, sub, impl_out)
         if sub == "codec":
             return None                      # the table itself is compared with the model's (leg K)
+        if sub == "f32":
+            fmt, w, h = int(toks[2]), int(toks[3]), int(toks[4])
+            bpp = {10: 0.5, 11: 1.0}[fmt]
+            true = int(bpp * w * h)                                   # exact in double precision
+            asked = int(struct.unpack("<f", struct.pack("<f", bpp * w * h))[0])   # one binary32 rounding, then truncation
+            want = "".join("O" if asked <= max(0, true + d) else "E" for d in (-2, -1, 0, 1, 2))
+            if impl_out != want:
+                return ("%s: %dx%d format %d: payload %d bytes, binary32 product %d; outcomes for payload lengths -2..+2 %s, expected %s"
+                        % (kind, w, h, fmt, true, asked, impl_out, want))
+            return None
         if sub == "ref":
             texs = parse_tex_tokens(toks[3:])
             ot = impl_out.split(" ")
